@@ -934,6 +934,7 @@ func (y *IfFeature) Evaluate(enabled map[string]*Feature) (bool, error) {
 	if y.parent != nil {
 		if m := RootModule(y.parent); m != nil {
 			e.prefix = m.Prefix()
+			e.module = m
 		}
 	}
 	if !e.wellFormed() {
@@ -957,6 +958,9 @@ type ifFeatureEval struct {
 
 	// prefix of module expression is in, features can be written with it
 	prefix string
+
+	// module expression is in, features of imported modules are written with the prefix of the import
+	module *Module
 }
 
 // wellFormed checks the expression against the grammar in RFC7950 Sec 7.20.2 because
@@ -1054,7 +1058,14 @@ func (y *ifFeatureEval) eval(greedy bool) bool {
 			if y.prefix != "" && strings.HasPrefix(tok, y.prefix+":") {
 				tok = tok[len(y.prefix)+1:]
 			}
-			_, found := y.features[tok]
+			f, found := y.features[tok]
+			if colon := strings.IndexRune(tok, ':'); !found && colon > 0 && y.module != nil {
+				// feature of an imported module
+				if imp, isImport := y.module.imports[tok[:colon]]; isImport && imp.module != nil {
+					f, found = y.features[tok[colon+1:]]
+					found = found && RootModule(f) == imp.module
+				}
+			}
 			y.push(found)
 		}
 		if greedy {
